@@ -76,19 +76,23 @@ VARIABLES
   lastResp,   \* per caller: response being decided on
   n,          \* per caller: requests sent (saturates at MaxLen)
   \* history variables for the timing clauses
-  lastPost,   \* per caller: instant of its last request, -1 before the first
+  lastPost,   \* per caller: instant of its last request (= the instant its current wait started), -1 before the first
   minNext,    \* per caller: lastPost + what the server asked for in reply to it
   askUntil,   \* shared: latest instant any response of the server asked anybody to wait for
-  waitAt,     \* per caller: instant its current wait started
   hist        \* the behaviour (only when Record)
 
 shared == <<mult, notBefore>>
 vars == <<now, mult, notBefore, pc, ctxEnd, ctxDone, until, result, lastResp, n,
-          lastPost, minNext, askUntil, waitAt, hist>>
+          lastPost, minNext, askUntil, hist>>
 
 Log(e) == hist' = IF Record THEN Append(hist, e) ELSE hist
 
 (* ---- actions: one per critical section of the code ---- *)
+
+\* a caller that has returned forgets its per-call bookkeeping
+Clear(c) == /\ until' = [until EXCEPT ![c] = 0]
+            /\ lastPost' = [lastPost EXCEPT ![c] = -1]
+            /\ minNext' = [minNext EXCEPT ![c] = 0]
 
 \* PostAndParse: one request/response exchange (the context is still alive)
 Post(c, r) ==
@@ -100,7 +104,7 @@ Post(c, r) ==
   /\ n' = [n EXCEPT ![c] = Min(n[c] + 1, MaxLen)]
   /\ Log([a |-> "Post", c |-> c, t |-> now, cls |-> r.cls, rak |-> r.rak, ov |-> r.ov,
           mult |-> mult, nb |-> notBefore])
-  /\ UNCHANGED <<now, mult, notBefore, ctxEnd, ctxDone, until, result, askUntil, waitAt>>
+  /\ UNCHANGED <<now, mult, notBefore, ctxEnd, ctxDone, until, result, askUntil>>
 
 \* PostAndParse with a context that has ended: the context's error, no request
 PostCtx(c) ==
@@ -108,7 +112,8 @@ PostCtx(c) ==
   /\ pc' = [pc EXCEPT ![c] = "done"]
   /\ result' = [result EXCEPT ![c] = Res("ctx")]
   /\ Log([a |-> "Ret", c |-> c, t |-> now, res |-> "ctx"])
-  /\ UNCHANGED <<now, mult, notBefore, ctxEnd, ctxDone, until, lastResp, n, lastPost, minNext, askUntil, waitAt>>
+  /\ Clear(c)
+  /\ UNCHANGED <<now, mult, notBefore, ctxEnd, ctxDone, lastResp, n, askUntil>>
 
 \* the status switch of PostAndParseWithRetry, including backoff.set under its mutex
 Decide(c) ==
@@ -119,11 +124,12 @@ Decide(c) ==
           /\ pc' = [pc EXCEPT ![c] = "done"]
           /\ result' = [result EXCEPT ![c] = Res(IF r.cls = "ok" THEN "ok" ELSE "status")]
           /\ Log([a |-> "Ret", c |-> c, t |-> now, res |-> IF r.cls = "ok" THEN "ok" ELSE "status"])
+          /\ Clear(c)
           /\ UNCHANGED <<mult, notBefore, askUntil>>
         ELSE IF r.cls = "s408" THEN      \* retried without touching the back-off
           /\ pc' = [pc EXCEPT ![c] = "setdone"]
           /\ Log([a |-> "Set", c |-> c, t |-> now, mult |-> mult, nb |-> notBefore])
-          /\ UNCHANGED <<mult, notBefore, askUntil, result>>
+          /\ UNCHANGED <<mult, notBefore, askUntil, result, until, lastPost, minNext>>
         ELSE
           LET s == SetBackoff(mult, notBefore, now, Asks(r), r.ov) IN
           /\ pc' = [pc EXCEPT ![c] = "setdone"]
@@ -131,22 +137,22 @@ Decide(c) ==
           /\ notBefore' = s.nb
           /\ askUntil' = IF Asks(r) THEN Max(askUntil, now + r.ov) ELSE askUntil
           /\ Log([a |-> "Set", c |-> c, t |-> now, mult |-> s.mult, nb |-> s.nb])
-          /\ UNCHANGED result
-  /\ UNCHANGED <<now, ctxEnd, ctxDone, until, n, lastPost, minNext, waitAt>>
+          /\ UNCHANGED <<result, until, lastPost, minNext>>
+  /\ UNCHANGED <<now, ctxEnd, ctxDone, n>>
 
 \* waitForBackoff: reads the shared not-before instant, adds this wait's jitter, arms the timer
 StartWait(c, j) ==
   /\ pc[c] = "setdone"
   /\ pc' = [pc EXCEPT ![c] = "waiting"]
   /\ until' = [until EXCEPT ![c] = notBefore + j]
-  /\ waitAt' = [waitAt EXCEPT ![c] = now]
   /\ Log([a |-> "Wait", c |-> c, t |-> now, until |-> notBefore + j, j |-> j])
   /\ UNCHANGED <<now, mult, notBefore, ctxEnd, ctxDone, result, lastResp, n, lastPost, minNext, askUntil>>
 
 TimerFires(c) ==
   /\ pc[c] = "waiting" /\ now >= until[c]
   /\ pc' = [pc EXCEPT ![c] = "posting"]
-  /\ UNCHANGED <<now, mult, notBefore, ctxEnd, ctxDone, until, result, lastResp, n, lastPost, minNext, askUntil, waitAt, hist>>
+  /\ until' = [until EXCEPT ![c] = 0]
+  /\ UNCHANGED <<now, mult, notBefore, ctxEnd, ctxDone, result, lastResp, n, lastPost, minNext, askUntil, hist>>
 
 \* the caller's context ends (deadline reached or cancelled at that instant)
 CtxEnds(c) ==
@@ -154,7 +160,7 @@ CtxEnds(c) ==
   /\ ctxEnd[c] # NoEnd /\ now >= ctxEnd[c]
   /\ ctxDone' = [ctxDone EXCEPT ![c] = TRUE]
   /\ Log([a |-> "Ctx", c |-> c, t |-> now])
-  /\ UNCHANGED <<now, mult, notBefore, pc, ctxEnd, until, result, lastResp, n, lastPost, minNext, askUntil, waitAt>>
+  /\ UNCHANGED <<now, mult, notBefore, pc, ctxEnd, until, result, lastResp, n, lastPost, minNext, askUntil>>
 
 \* the select in waitForBackoff takes the context branch
 CtxReturn(c) ==
@@ -162,7 +168,8 @@ CtxReturn(c) ==
   /\ pc' = [pc EXCEPT ![c] = "done"]
   /\ result' = [result EXCEPT ![c] = Res("ctx")]
   /\ Log([a |-> "Ret", c |-> c, t |-> now, res |-> "ctx"])
-  /\ UNCHANGED <<now, mult, notBefore, ctxEnd, ctxDone, until, lastResp, n, lastPost, minNext, askUntil, waitAt>>
+  /\ Clear(c)
+  /\ UNCHANGED <<now, mult, notBefore, ctxEnd, ctxDone, lastResp, n, askUntil>>
 
 (* ---- time ---- *)
 CtxPending(c) == pc[c] \notin {"idle", "done"} /\ ~ctxDone[c] /\ ctxEnd[c] # NoEnd
@@ -177,7 +184,7 @@ Advance ==
   /\ ~Urgent
   /\ Deadlines # {}
   /\ now' = SetMin(Deadlines)
-  /\ UNCHANGED <<mult, notBefore, pc, ctxEnd, ctxDone, until, result, lastResp, n, lastPost, minNext, askUntil, waitAt, hist>>
+  /\ UNCHANGED <<mult, notBefore, pc, ctxEnd, ctxDone, until, result, lastResp, n, lastPost, minNext, askUntil, hist>>
 
 CallerStep(c) == \/ PostCtx(c) \/ Decide(c) \/ TimerFires(c) \/ CtxEnds(c) \/ CtxReturn(c)
                  \/ \E j \in 0..(J - 1) : StartWait(c, j)
@@ -227,7 +234,7 @@ NoDelayOn408 == [][\A c \in Callers :
 \* ... and every wait ends as soon as the not-before instant read at its start plus jitter has passed
 WaitIsBackoffPlusJitter == [][\A c \in Callers :
                                 (pc[c] = "waiting" /\ pc'[c] = "posting") =>
-                                    /\ now = Max(until[c], waitAt[c])]_vars
+                                    /\ now = Max(until[c], lastPost[c])]_vars
 UntilInWindow == [][\A c \in Callers :
                       (pc[c] = "setdone" /\ pc'[c] = "waiting") =>
                           (until'[c] >= notBefore /\ until'[c] <= notBefore + (J - 1))]_vars
